@@ -48,6 +48,10 @@ def count(ctx, trace):
                     bump('direct write on one member')
                 continue
             msg = e.get('msg', '')
+            if any(e.get('wf', ())):
+                bad = 0 if e['wf'][0] else 1
+                bump('%s with a member failing by itself, answering %s' % (
+                    op, 'in its own time' if e['first'] < 0 else 'first' if e['first'] == bad else 'after the healthy member'))
             if op in ('GetTag', 'ResolveTag'):
                 bump('tag read: conflict reported' if 'conflicting' in msg else 'tag read: ok' if e['ok'] else 'tag read: absent')
             elif op in ('ListTags', 'ListRepos', 'Referrers'):
@@ -122,18 +126,18 @@ def run(ctx):
     for t in traces:
         count(ctx, t)
     sit = ctx.cov['situations']
-    for need in ('tag read: conflict reported', 'write refused because one member failed', 'listing: unknown to both', 'resume ok'):
+    for need in ('PushBlob with a member failing by itself, answering after the healthy member', 'PushBlob with a member failing by itself, answering first', 'tag read: conflict reported', 'write refused because one member failed', 'listing: unknown to both', 'resume ok'):
         if not sit.get(need):
             raise vlib.Machinery('the batch never reached the situation %r' % need)
     ctx.cov['samples'] = [dict(recorded_events=samples(traces[0]))]
     # 3. TLC validates every recorded call and both members' snapshots against OciUnify
     judge(ctx, traces, shard_lines=4000 if quick else 8000, label='ociunify over two ocimem vs OciUnify')
-    ctx.assumptions += ['members are ocimem registries (validated against OciRegistry by C02) with the same tag mode; a failing lister is a wrapper of the harness',
+    ctx.assumptions += ['members are ocimem registries (validated against OciRegistry by C02) with the same tag mode; a failing lister and a member that fails a write by itself (having read the pushed body) or holds its answer back are wrappers of the harness',
                         '"has the tag" for GetTag is what the member itself answers (a member whose tag dangles counts as not having it)',
                         'digest<->content mapping and manifest rendering by the harness; TLC and the Json/IOUtils community modules']
     return vlib.finish(ctx, rule='each scenario writes the two members directly (item by item to both / one / the other; the same tag to the same or '
                        'different manifests; one member left empty), then reads and lists everything through the unifier, then writes through it '
-                       '(pushes, deletes, mounts, chunked uploads closed and resumed at right/wrong offsets), under both read policies; every call is '
+                       '(pushes, deletes, mounts, chunked uploads closed and resumed at right/wrong offsets; replicated writes during which one member - either, answering before or after the healthy one - fails by itself), under both read policies; every call is '
                        'one trace event, followed by the projected state of member 0 and of member 1; TLC accepts iff each event is the step OciUnify '
                        'prescribes (same result as the combination of the two reference models\' answers; both snapshots equal the model members) and '
                        'UnionView, TagConflictNeverSilent, WriteBoth, ReadsChangeNothing, PoliciesAgree, EqualStaysEqual hold on that step')
